@@ -221,7 +221,9 @@ func init() {
 		Units: func(tier string, seed uint64) int { u, _, _ := c03Sizes(tier); return u },
 		Run:   c03Run,
 		Replay: map[string]func(json.RawMessage) string{
-			"validate-reused": func(json.RawMessage) string { return "needs the history of the schema object: not replayable from the case alone" },
+			"validate-reused": func(json.RawMessage) string {
+				return "needs the history of the schema object: not replayable from the case alone"
+			},
 			"validate": func(raw json.RawMessage) string {
 				var cs c03Case
 				json.Unmarshal(raw, &cs)
